@@ -344,6 +344,11 @@ def c05_8(ctx):
                     ctx.fail(m, m.node, "Calendar.%s declares adj=%s: any default but None makes `adj or self.adj` dead, so a calendar built with adj='p'/'f' is counted with %s there and with its own convention in adjust/bdays" % (name, U(d) if d is not None else '<required>', U(d) if d is not None else '?'),
                              stmt='def %s(adj=%s)' % (name, U(d) if d is not None else ''))
     ini = r.fn('_drange:Calendar.__init__')
+    ctx.count(1, ini.where())
+    hol = [N(x.value) for x in body_nodes(ini.node) if isinstance(x, ast.Assign) and U(x.targets[0]) == 'holidays']
+    if hol != ['as_list(holidays)', 'dict(zip(holidays, holidays))']:
+        ctx.fail(ini, ini.node, 'the holidays given are not all stored (as_list, then a dict keyed by date): %s - is_bday(t) must be false for EVERY supplied holiday, the first and last day of the range included' % hol,
+                 stmt='holidays: %s' % hol, witness='Calendar(key, holidays=[dt(2013,1,1)], t0=2013, t1=2015).is_bday(dt(2013,1,1))')
     none_not_falsy(ctx, ini, ['weekend', 'holidays'], 'an EMPTY weekend/holiday list is a configuration of its own (every day of the week is a business day): the Sat-Sun default may only replace None')
     g = r.fn('_drange:Calendar.add')
     t = [s for s in g.body if isinstance(s, ast.Assign) and U(s.targets[0]) == 't']
